@@ -1754,6 +1754,8 @@ class Interp:
 
     def llist_get(self, l, i):
         """element at concrete index i (i < length assumed by caller)"""
+        if l.sym_writes:
+            raise Unsupported("read of a lazy list after a store at a symbolic index")
         base = concrete_int(l.length)
         if base is not None and i >= base:
             return l.appended[i - base]
@@ -1765,9 +1767,14 @@ class Interp:
         ci = concrete_int(i)
         if ci is not None:
             return self.llist_get(l, ci)
+        for wi, wv in reversed(l.sym_writes):
+            if str(wi) == str(simp(i)):
+                return wv
+            raise Unsupported("read of a lazy list after a store at a symbolic index")
         key = ("llist-sym", l.name, str(simp(i)))
         if key not in self.ctx.ghost:
             self.ctx.ghost[key] = self.make(l.elem_ty, f"{l.name}[{simp(i)}]")
+            self.ctx.ghost[("llist-sym-index",) + key[1:]] = simp(i)
         return self.ctx.ghost[key]
 
     # ---- lazy dicts
@@ -1790,6 +1797,8 @@ class Interp:
             ent[2] = self.make(d.vty, f"{d.name}[{len(d.entries)}]")
             if ent[4] is None:
                 ent[4] = ent[2]
+            if d.value_inv is not None:
+                self.ctx.assume(z3.Implies(ent[3], d.value_inv(self, ent[0], ent[2])))
         return ent[2]
 
     # ------------------------------------------------------------------ expressions
